@@ -169,20 +169,20 @@ Proof.
   rewrite !len_app, IH, Lt. simpl. lia.
 Qed.
 
-Definition first_ok (first : option (string * Z)) (s : st) : Prop :=
+Definition tfirst_ok (first : option (string * Z)) (s : st) : Prop :=
   match first with
   | Some (sys, n) => (exists a, sys = String a "" /\ is_space a = false) /\ fits_int 3 n
   | None => True
   end.
 
-Lemma len_p6 first s : first_ok first s ->
+Lemma len_p6 first s : tfirst_ok first s ->
   len (match first with Some (sys, n) => sys ++ "  " ++ render_int 3 n | None => spaces 6 end) = 6.
 Proof.
   destruct first as [[sys n]|]; [|reflexivity]. intros [[a [E _]] Fn]. subst sys.
   rewrite !len_app, (len_render_int 3 n Fn). reflexivity.
 Qed.
 
-Lemma types_line_ok first chunk s : first_ok first s -> chunk <> [] -> Forall type3_ok chunk -> List.length chunk <= 13 ->
+Lemma types_line_ok first chunk s : tfirst_ok first s -> chunk <> [] -> Forall type3_ok chunk -> List.length chunk <= 13 ->
   header_line G3.header_table (hdr_line (types_body_v3 first chunk) types_label_v3) s =
   match (match first with Some (sy, _) => Some sy | None => hsys s end) with
   | Some c =>
@@ -325,14 +325,14 @@ Proof.
     rewrite <- List.app_assoc. reflexivity.
 Qed.
 
-Lemma len_types_body first chunk s : first_ok first s -> Forall type3_ok chunk -> List.length chunk <= 13 ->
+Lemma len_types_body first chunk s : tfirst_ok first s -> Forall type3_ok chunk -> List.length chunk <= 13 ->
   len (types_body_v3 first chunk) <= 60.
 Proof.
   intros Fo F L. unfold types_body_v3. rewrite len_app, (len_p6 first s Fo). change (fun t => " " ++ t) with sp.
   rewrite (len_sp_cat chunk F). lia.
 Qed.
 
-Lemma types_line_not_end first chunk s : first_ok first s -> Forall type3_ok chunk -> List.length chunk <= 13 ->
+Lemma types_line_not_end first chunk s : tfirst_ok first s -> Forall type3_ok chunk -> List.length chunk <= 13 ->
   is_end_of_header (hdr_line (types_body_v3 first chunk) types_label_v3) = false.
 Proof.
   intros Fo F L. rewrite (end_marker_hdr_line _ _ (len_types_body first chunk s Fo F L) types_label_ok). reflexivity.
@@ -349,109 +349,3 @@ Proof.
     destruct (proj1 (Forall_forall _ _) Fr c Hc) as [_ [Lc Fc]]. apply (types_line_not_end None c st0 I Fc Lc).
 Qed.
 
-Definition hdr_state (f : file3) (h : option string) : st :=
-  with_types (set_meta [("marker_name", MStr (f3_marker f))] st0) (all_types (f3_systypes f) []) (f3_systypes f) h.
-
-Lemma systypes_sys_ok stt : systypes_ok stt -> Forall sys_ok stt /\ NoDup (map fst stt).
-Proof. intros [ND F]. split; [exact F|exact ND]. Qed.
-
-Lemma header3_ok f rest : file3_ok f ->
-  exists h, run_header G3.header_table (render_header3 f ++ rest) st0 = Some (hdr_state f h, rest).
-Proof.
-  intros [Tm [Lm [Hst _]]]. destruct (systypes_sys_ok _ Hst) as [Fs ND].
-  set (s0 := set_meta [("marker_name", MStr (f3_marker f))] st0).
-  destruct (systems_ok (f3_systypes f) s0 Fs ND) as [h Hh]; [intros k _ []|].
-  exists h. unfold render_header3.
-  change (hdr_line (f3_marker f) "MARKER NAME" :: concat (map types_lines_v3 (f3_systypes f)) ++ [end_of_header])%list
-    with ((hdr_line (f3_marker f) "MARKER NAME" :: concat (map types_lines_v3 (f3_systypes f))) ++ [end_of_header])%list.
-  rewrite <- List.app_assoc.
-  rewrite (run_header_app G3.header_table _ st0 (hdr_state f h)).
-  - cbn [app run_header]. reflexivity.
-  - constructor.
-    + assert (K : label_ok "MARKER NAME") by (split; [discriminate|reflexivity]).
-      rewrite (end_marker_hdr_line _ _ Lm K). reflexivity.
-    + apply Forall_concat. apply Forall_forall. intros ls Hls. apply in_map_iff in Hls. destruct Hls as [p [E Hp]]. subst ls.
-      apply types_lines_not_end. apply (proj1 (Forall_forall _ _) Fs p Hp).
-  - cbn [hfold]. rewrite (marker_line_ok _ st0 Tm Lm). cbv beta iota. exact Hh.
-Qed.
-
-(* ------------------------------------------------------------------------------------------ the whole file *)
-Definition file_rows3 (rate : option Q) (f : file3) : list row :=
-  body_rows rate (f3_systypes f) (all_types (f3_systypes f) []) (f3_marker f) (f3_epochs f).
-
-Definition final_state3 (rate : option Q) (f : file3) : st :=
-  {| meta := [("marker_name", MStr (f3_marker f))]; pos := None; types_all := all_types (f3_systypes f) []; num_types := None;
-     sys_types := f3_systypes f; hsys := None; rows := rev (file_rows3 rate f) |}.
-
-Lemma finish_v3_ext s s' : meta s = meta s' -> pos s = pos s' -> types_all s = types_all s' -> sys_types s = sys_types s' ->
-  rows s = rows s' -> finish_v3 s = finish_v3 s'.
-Proof. intros H1 H2 H3 H4 H5. unfold finish_v3. rewrite H1, H2, H3, H4, H5. reflexivity. Qed.
-
-Lemma add_rows_fields rs : forall s, meta (add_rows s rs) = meta s /\ pos (add_rows s rs) = pos s /\
-  types_all (add_rows s rs) = types_all s /\ sys_types (add_rows s rs) = sys_types s.
-Proof. induction rs as [|r rs IH]; intros s; [repeat split|]. apply (IH (add_row s r)). Qed.
-
-Lemma rinex3_file_roundtrip_l rate f : file3_ok f ->
-  parse_v3 G3.header_table G3.obs_table rate (render_file3 f) = finish_v3 (final_state3 rate f).
-Proof.
-  intros Ok. destruct (header3_ok f (render_body_v3 (f3_epochs f)) Ok) as [h Hh].
-  destruct Ok as [Tm [Lm [Hst Fe]]]. destruct Hst as [ND Fs].
-  unfold parse_v3, render_file3. rewrite Hh.
-  assert (L240 : Forall (fun p : string * list string => List.length (snd p) < 240) (f3_systypes f)).
-  { apply Forall_forall. intros p Hp. apply (proj1 (Forall_forall _ _) Fs p Hp). }
-  rewrite (body3_run rate (f3_systypes f) (all_types (f3_systypes f) []) (f3_marker f) ND L240 (f3_epochs f) (hdr_state f h) cache0);
-    [| repeat split | exact Fe].
-  destruct (add_rows_fields (file_rows3 rate f) (hdr_state f h)) as [A1 [A2 [A3 A4]]]. unfold file_rows3 in A1, A2, A3, A4.
-  apply finish_v3_ext; [rewrite A1|rewrite A2|rewrite A3|rewrite A4|]; try reflexivity.
-  rewrite rows_add_rows. cbn [hdr_state with_types rows set_meta st0]. rewrite List.app_nil_r. reflexivity.
-Qed.
-
-(* one row per (epoch on the grid, satellite) in file order; every column has that many entries *)
-Lemma rinex3_rows_l rate f : file3_ok f -> file_rows3 rate f <> [] ->
-  exists r, parse_v3 G3.header_table G3.obs_table rate (render_file3 f) = Some r /\
-            o_rows r = file_rows3 rate f /\
-            Forall (fun col => List.length (snd col) = List.length (o_rows r)) (o_obs r).
-Proof.
-  intros Ok Ne. rewrite (rinex3_file_roundtrip_l rate f Ok). unfold finish_v3, final_state3. cbn [rows sys_types types_all meta pos].
-  rewrite rev_involutive. destruct (file_rows3 rate f) as [|r0 rs] eqn:E; [contradiction|].
-  eexists. split; [reflexivity|]. cbn [o_rows o_obs]. split; [reflexivity|].
-  apply Forall_forall. intros col Hc. apply in_map_iff in Hc. destruct Hc as [t [Et _]]. subst col. cbn [snd].
-  unfold column. apply map_length.
-Qed.
-
-(* decimation: exactly the epochs on the sampling grid contribute rows, the others none *)
-Lemma sat_rows_grid rate stt all mk t sats :
-  sat_rows stt all mk (einfo3 rate t) sats = if on_grid rate (sec_of t) then sat_rows stt all mk (einfo3 None t) sats else [].
-Proof. unfold sat_rows, einfo3. cbn [e_sec on_grid]. destruct (on_grid rate (sec_of t)); reflexivity. Qed.
-
-Lemma decimation_file_spec_l rate f :
-  file_rows3 rate f =
-  flat_map (fun e => if on_grid rate (sec_of (e3_t e))
-                     then epoch_rows None (f3_systypes f) (all_types (f3_systypes f) []) (f3_marker f) e else []) (f3_epochs f).
-Proof.
-  unfold file_rows3, body_rows. rewrite flat_map_concat_map. f_equal. apply map_ext. intros e. unfold epoch_rows.
-  apply sat_rows_grid.
-Qed.
-
-(* observation types not defined for the satellite's system are absent in its row *)
-Lemma assoc_combine_none {A} t ts (vs : list A) : ~ In t ts -> assoc t (combine ts vs) = None.
-Proof.
-  revert vs; induction ts as [|x r IH]; intros vs N; [reflexivity|]. destruct vs as [|v vr]; [reflexivity|]. cbn [combine assoc].
-  destruct (String.eqb_spec x t) as [E|E]; [exfalso; apply N; left; exact E|]. apply IH. intro I. apply N. right. exact I.
-Qed.
-
-Lemma assoc_app_none {A} t (a b : list (string * A)) : assoc t a = None -> assoc t (a ++ b) = assoc t b.
-Proof.
-  induction a as [|[k v] r IH]; intros H; [reflexivity|]. cbn [app assoc] in *. destruct (String.eqb k t); [discriminate|]. apply IH, H.
-Qed.
-
-Lemma assoc_const_absent t l : assoc t (map (fun x : string => (x, absent)) l) = None \/ assoc t (map (fun x : string => (x, absent)) l) = Some absent.
-Proof.
-  induction l as [|x r IH]; [left; reflexivity|]. cbn [map assoc]. destruct (String.eqb x t); [right; reflexivity|exact IH].
-Qed.
-
-Lemma row3_undefined_absent mk ts all e sa t : ~ In t ts -> cell_of t (row3 mk ts all e sa) = absent.
-Proof.
-  intros N. unfold cell_of, row3. cbn [r_vals]. rewrite assoc_app_none by (apply assoc_combine_none, N).
-  destruct (assoc_const_absent t (filter (fun t0 => negb (mem_str t0 ts)) all)) as [H|H]; rewrite H; reflexivity.
-Qed.
